@@ -4151,7 +4151,7 @@ class FuncTimestamp(ValueFunc):
         return []
 
     def execute(self, args, environment, pos):
-        return ValueInt(datetime.datetime.now().timestamp())
+        return ValueInt(int(datetime.datetime.now().timestamp()))
 
 
 class FuncTrim(ValueFunc):
